@@ -1,5 +1,8 @@
 use std::any::Any;
+#[cfg(not(sentinel_verif))]
 use std::sync::Arc;
+#[cfg(sentinel_verif)]
+use sentinel_verif_rt::sync::Arc;
 
 pub mod time;
 
